@@ -7,6 +7,7 @@ import (
 	"os"
 	"os/exec"
 	"path/filepath"
+	"regexp"
 	"runtime/debug"
 	"sort"
 	"strings"
@@ -284,7 +285,7 @@ func selfOne(exe, vdir, repo string, pr *Property, e corpusEntry, baseViol map[s
 	var newViol, newUnd []string
 	loadFail := false
 	for _, o := range obs {
-		if o.Status == "violated" && !baseViol[o.Key()] {
+		if o.Status == "violated" && !baseViol[o.Key()] && !matchesKnownPattern(vdir, o.Key()) {
 			newViol = append(newViol, o.Key())
 		}
 		if o.Status == "undecided" {
@@ -321,4 +322,35 @@ func selfOne(exe, vdir, repo string, pr *Property, e corpusEntry, baseViol map[s
 		res.Outcome, res.Detail = "MISSED", fmt.Sprintf("expected a new violation of %s; new violations: %v", e.Rules, newViol)
 	}
 	return res
+}
+
+var knownPatCache []*regexp.Regexp
+var knownPatLoaded bool
+var knownPatMu sync.Mutex
+
+// matchesKnownPattern: the key falls under a key pattern of a finding listed as known (a relocated
+// obligation of the same design-level defect is not a new violation).
+func matchesKnownPattern(vdir, key string) bool {
+	knownPatMu.Lock()
+	if !knownPatLoaded {
+		knownPatLoaded = true
+		for _, f := range loadFindings(filepath.Join(vdir, "known_findings.json")) {
+			if f.Status != "known" {
+				continue
+			}
+			for _, ps := range f.KeyPatterns {
+				if re, err := regexp.Compile(ps); err == nil {
+					knownPatCache = append(knownPatCache, re)
+				}
+			}
+		}
+	}
+	pats := knownPatCache
+	knownPatMu.Unlock()
+	for _, re := range pats {
+		if re.MatchString(key) {
+			return true
+		}
+	}
+	return false
 }
